@@ -49,9 +49,33 @@ func c08Drivers(thorough bool) []*engine.HDriver {
 	return []*engine.HDriver{regDriver("subscriptions", c08Alphabet(thorough), true, false, nil)}
 }
 
+// c08Scenarios: the grant decision ("not subscribed already"), the removal of exactly the addressed
+// pair and the fan-out stay exact when messages are processed concurrently: every outcome must be
+// the outcome of some sequential order of the same messages (see conc.go).
+func c08Scenarios(thorough bool) []*engine.SScenario {
+	pair := "sub:A:e1f1:L1lc:lc:d"
+	scs := []*engine.SScenario{
+		linScenario([]string{"sub:B:e1f1:L1lc:lc:d"}, [][]string{{pair}, {pair}}, []string{"set:L1lc:2"}),
+		linScenario(nil, [][]string{{pair}, {"sub:A:e1f1:L1lc:lc:n"}}, []string{"set:L1lc:2", "unsub:A:e1f1:L1lc:d", "set:L1lc:1"}),
+		linScenario(nil, [][]string{{pair}, {"sub:B:e1f1:L1lc:lc:d"}}, []string{"set:L1lc:2"}),
+		linScenario([]string{pair, "sub:B:e1f1:L1lc:lc:d"}, [][]string{{"unsub:A:e1f1:L1lc:d", pair}, {"sub:A:e1f1:L1lc:lc:n"}}, []string{"set:L1lc:2"}),
+		linScenario([]string{pair, "sub:B:e1f1:L1lc:lc:d"}, [][]string{{"unsub:A:e1f1:L1lc:d"}, {"set:L1lc:2"}}, []string{"set:L1lc:1"}),
+		linScenario([]string{"sub:B:e1f1:L1lc:lc:d"}, [][]string{{pair}, {"set:L1lc:2"}}, []string{"set:L1lc:1"}),
+	}
+	if thorough {
+		scs = append(scs,
+			linScenario([]string{pair, "sub:A:e2f1:L1lc:lc:d"}, [][]string{{"unsub:A:e1f1:L1lc:d"}, {"unsub:A:e2f1:L1lc:d"}}, []string{"set:L1lc:2"}),
+			linScenario([]string{"sub:B:e1f1:L1lc:lc:d"}, [][]string{{pair}, {pair}, {"unsub:B:e1f1:L1lc:d"}}, []string{"set:L1lc:2"}),
+			linScenario([]string{"bind:A:e1f1:L1lc:lc:d", "sub:B:e1f1:L1lc:lc:d"}, [][]string{{"write:A:e1f1:L1lc:limit:ack:2"}, {"sub:A:e1f1:L1lc:lc:d"}}, []string{"set:L1lc:1"}))
+	}
+	return scs
+}
+
 func init() {
 	engine.Register(&engine.Check{
-		ID: "C08",
+		ID:        "C08",
+		NeedsRace: true,
+		Scenarios: func(c *engine.Ctx) []*engine.SScenario { return c08Scenarios(c.Thorough) },
 		Run: func(c *engine.Ctx) *engine.Report {
 			rep := &engine.Report{Level: "model_checking", Coverage: map[string]any{"exhaustive": true}}
 			for _, d := range c08Drivers(c.Thorough) {
@@ -61,6 +85,7 @@ func init() {
 				rep.Coverage["closure_reached"] = st.Closure
 				rep.Coverage["max_depth"] = st.MaxDepth
 			}
+			mergeS(c, rep, c08Scenarios(c.Thorough), engine.SPlan{Bounds: boundsFor(c, []int{0, 1, 2}, []int{0, 1, 2, 3, -1}), Race: true, RaceMaxBound: 1, RaceFuncs: []string{"SubscriptionManager"}})
 			rep.Assumptions = []string{"alphabet: see coverage.histories; peers A and B use identical entity/feature numbers; every operation runs to quiescence (asynchronous event handlers included) before it is judged"}
 			return rep
 		},
